@@ -72,7 +72,18 @@ class HedgeLoss(Module, ABC):
             torch.Tensor
         """
         pl = input - target
-        return bisect(self, self(pl), pl.min(), pl.max())
+        lower = pl.amin(dim=0)
+        upper = pl.amax(dim=0)
+        # a constant sample is its own cash equivalent; give bisect a non-empty bracket
+        constant = lower == upper
+        upper = torch.where(constant, upper + 1, upper)
+
+        def fn(cash: Tensor) -> Tensor:
+            # evaluate each candidate as a constant sample of its own column
+            return self(cash.unsqueeze(0))
+
+        output = bisect(fn, self(pl), lower, upper)
+        return torch.where(constant, lower, output)
 
 
 class EntropicRiskMeasure(HedgeLoss):
